@@ -33,7 +33,7 @@ def gen_constraint(rng, g: Graph, shape, is_prop):
     p, q = rng.choice(PREDS), rng.choice(PREDS)
     t = {"minus": False, "values": False, "service": False, "nested": None, "asVar": None, "usesPath": False, "usesSG": False}
     kind = rng.choice(["value", "value", "path" if is_prop else "value", "other", "qpath", "rebind_this", "currentShape", "pairs", "pairs",
-                       "other", "qpath", "nested_ok", "as_ok", "value", "path" if is_prop else "other",
+                       "other", "qpath", "nested_ok", "as_ok", "value", "path" if is_prop else "other", "union_vars",
                        rng.choice(["minus", "values", "service", "nested_bad", "nested_star", "as_this"])])
     cond = rng.choice(CONDS)
     if kind == "value":
@@ -45,6 +45,9 @@ def gen_constraint(rng, g: Graph, shape, is_prop):
         q_text = "SELECT $this ?value ?other WHERE { $this ex:%s ?value . $this ex:%s ?other }" % (local(p), local(q))
     elif kind == "pairs":
         q_text = "SELECT $this ?a ?b WHERE { $this ex:%s ?a . $this ex:%s ?b . FILTER (?a != ?b) }" % (local(p), local(p))
+    elif kind == "union_vars":
+        # two solutions that bind the same terms under different variable names are two solutions
+        q_text = "SELECT $this ?a ?b WHERE { { $this ex:%s ?a } UNION { $this ex:%s ?b } }" % (local(p), local(p))
     elif kind == "qpath":
         q_text = "SELECT $this ?path ?value WHERE { $this ?path ?value . FILTER (?path IN (ex:%s, ex:%s)) }" % (local(p), local(q))
     elif kind == "failure":
